@@ -23,7 +23,7 @@ def run(tier, replay=None):
     for f in res["failures"]:
         ck.failure(f["signature"], f["what"], {"input": f["input"]})
 
-    mism, smism, emism, gmism = None, None, None, None
+    mism, smism, emism, gmism, fmism = None, None, None, None, None
     if ck.coq_ok:
         hdr = "From Coq Require Import NArith.\nFrom Errors Require Import Model Run.\nOpen Scope string_scope."
         lines = open(os.path.join(ck.work, "cases_merge.txt")).read().splitlines()
@@ -39,6 +39,12 @@ def run(tier, replay=None):
         emism = ck.coq_eval_cases(elines, hhdr, "N * fmtsel * eshape * writer", "encode_mismatches", tag="encode")
         glines = open(os.path.join(ck.work, "cases_grpcshape.txt")).read().splitlines()
         gmism = ck.coq_eval_cases(glines, hhdr, "N * eshape * grpc_code * string * core", "grpcshape_mismatches", tag="grpcshape")
+        flines = open(os.path.join(ck.work, "cases_grpcfull.txt")).read().splitlines()
+        fmism = ck.coq_eval_cases(flines, hhdr, "N * eshape * nat * gstatus * option detail", "grpcfull_mismatches", tag="grpcfull")
+        if fmism and not ck.violations:
+            ck.unproved("correspondence Errors.grpc_encode_full / reencode vs grpc/error.go EncodeError (status inputs, re-encoding) broke on %d case(s); the laws held on every case explored" % len(fmism),
+                        {"broken": "correspondence Nat.iter k reencode (grpc_encode_full shape) = observed status", "input": res.get("extra", {}).get("grpcfull_cases", [None])[fmism[0]],
+                         "mismatching_grpcfull_case_indexes": fmism[:50]})
         if hmism is not None and cmism is not None and smism is not None:
             smism = smism + [10000 + x for x in hmism] + [20000 + x for x in cmism]
     if not ck.coq_ok:
@@ -60,11 +66,12 @@ def run(tier, replay=None):
                          "first_disagreeing_history": (res.get("extra", {}).get("heap_cases") or [None])[[x - 10000 for x in smism if 10000 <= x < 20000][0]] if [x for x in smism if 10000 <= x < 20000] else None})
     cov = {"evaluations": res["evaluations"], "distinct_nontrivial": res["distinct_nontrivial"], "rule": res["rule"],
            "samples": res["samples"], "distribution": res["distribution"],
-           "model_mismatches": (len(mism or []) + len(smism or []) + len(emism or []) + len(gmism or [])) if ck.coq_ok else None,
+           "model_mismatches": (len(mism or []) + len(smism or []) + len(emism or []) + len(gmism or []) + len(fmism or [])) if ck.coq_ok else None,
            "exhaustive": False}
     return ck.finish(cov, assumptions=[
         "model Errors/Model.v is hand-written from pkg/error.go, http/error.go, grpc/error.go; tied by evaluating merge_tree / http_status / grpc_code_of / error_encoder / grpc_encode inside Coq on every case the real code ran",
         "model of http.ErrorEncoder (Errors.error_encoder) is hand-written from http/encoding.go; the response writer is modelled by its first status, the bodies encoded and the number of WriteHeader calls; body encoders (JSON, XML) are exercised, not modelled; errors are modelled by shape (plain / service / wrapper / join), a wrapper type's Error() is taken to be ctx + \": \" + inner",
+        "gRPC status inputs: status.FromError / WithDetails / Details are modelled by their documented behaviour (first status of the chain by errors.As, details appended, first detail decoded); a status of code OK is the nil error and is outside the shapes",
         "identifiers drawn by NewErrorID for non-ServiceError leaves are projected away",
         "protobuf status details transport (grpc status.WithDetails / Details) is exercised, not modelled"],
         trusted_base=["harness/cmd/c18 (case generation, observation, Coq term printing)", "decidable equality obs_eq_dec (by decide equality, Defined)"])
